@@ -44,6 +44,13 @@ func checkRunTraces(c *core.Ctx, worker string, ps []*gen.Project, cfg string, s
 		}
 	}
 	stats.cover(c)
+	// the system specification (HermesRun.tla) is bound to the same executions, concurrently with the property invariants
+	var sysWG sync.WaitGroup
+	if sysFamilies[c.ID] {
+		sysWG.Add(1)
+		go func() { defer sysWG.Done(); sysConformance(c, cases, c.Pick(6, 40)) }()
+	}
+	defer sysWG.Wait()
 	res := validateCases(c, cases, "Trace_Run", cfg, "")
 	for _, tr := range res {
 		if tr == nil {
